@@ -427,6 +427,7 @@ func checkC07(c *Ctx) {
 			c.Bad(V1, FuncName(pre), "tag table entry", "-", "no tag is stored")
 		}
 	}
+	checkC07Wiring(c)
 	my := c.mustFunc(m, PkgDisc, "Member", "computeMyTag")
 	if my != nil {
 		ok := false
@@ -443,6 +444,15 @@ func checkC07(c *Ctx) {
 		}
 		c.Check(ok, V1, FuncName(my), "own tag", m.Pos(my.Pos()), "PRF(topic)(m.ID)", "the own tag is not the PRF of the own id: peers cannot attribute this member's messages")
 	}
+}
+
+func checkC07Wiring(c *Ctx) {
+	t := buildThresholdModel(c)
+	if t == nil {
+		return
+	}
+	c.Rule("C07.W1", "LoudScheme builds the synchroniser over the member list and callbacks it is given", 1)
+	ruleConstructorWiring(c, t, "", "C07.W1")
 }
 
 func isSelect(v ssa.Value) bool { _, ok := v.(*ssa.Select); return ok }
